@@ -66,6 +66,10 @@ def gen(rng, tier, i):
                     oneshot_done.add(c)
                     steps.append(send(c, data, None))
                     continue
+                if c not in charmode and rng.random() < 0.06:
+                    # exec(): the connection moves to a new user object while commands are still buffered behind it
+                    k = seq.get(c, 0) + 1; seq[c] = k
+                    data += 'c%d_%d\r\ndo exec dest\r\n' % (c, k)
                 if c in charmode:
                     data = ''.join(rng.choice('abcdefghijklmnop') for _ in range(rng.randint(1, 8)))
                 else:
@@ -122,6 +126,9 @@ def check(plan, res):
             if w[0] == 'CONNECT':
                 ww = e.rest.split(' ')
                 if last_accept is not None: alias[ww[2]] = last_accept; last_accept = None
+            elif w[0] == 'EXECD' and len(e.rest.split(' ')) > 2:
+                ww = e.rest.split(' ')
+                if ww[2] in alias: alias[ww[1]] = alias[ww[2]]
             elif w[0] in ('PI', 'INPUT', 'CHAR') and w[1] in alias:
                 c = alias[w[1]]
                 served.setdefault(c, []).append((e.cycle, w[0], w[2] if len(w) > 2 else ''))
